@@ -280,6 +280,10 @@ func CallPred(name string, id string, resultIdx int, want bool, argOK func(args 
 func ValuePred(name string, v ssa.Value, want bool) Pred {
 	return Pred{Name: name, Match: func(a Atom) (bool, bool) {
 		if a.Op != token.ILLEGAL {
+			// the value is itself a comparison instruction
+			if a.V != nil && a.V == v {
+				return want != a.VInv, true
+			}
 			return false, false
 		}
 		if SameValue(a.V, v) {
